@@ -238,6 +238,34 @@ func runC10(c *core.Ctx) {
 					ok = true
 				}
 			}
+			if ph, isPhi := v.(*ssa.Phi); isPhi && !ok {
+				// `var found *T; for … && found == nil { if t.scope.Contains(s) { found = t } }; return found`:
+				// every token that can flow into the returned variable was assigned under the test
+				seen := map[*ssa.Phi]bool{}
+				var leavesOK func(p *ssa.Phi) bool
+				leavesOK = func(p *ssa.Phi) bool {
+					if seen[p] {
+						return true
+					}
+					seen[p] = true
+					for j, e := range p.Edges {
+						if facts.IsNilConst(e) {
+							continue
+						}
+						if q, isQ := e.(*ssa.Phi); isQ {
+							if !leavesOK(q) {
+								return false
+							}
+							continue
+						}
+						if !containsGuard(p.Block().Preds[j], e, lookup, 1) {
+							return false
+						}
+					}
+					return true
+				}
+				ok = leavesOK(ph)
+			}
 			c.Check(ok, "C10.R2", "accessTokenForScope/contains-guard", r.Pos(), "a cached token is returned only if its scope contains the requested scope", "a cached token is returned on a path where `token.scope.Contains(requested)` is not established (or the containment is tested the wrong way round): a token that does not cover the request's required scope is reused")
 		}
 	}
@@ -621,6 +649,17 @@ func c10StoredScope(c *core.Ctx, acqAT, acqT *ssa.Function) {
 						}
 						return false
 					})
+					// the string is picked by a private helper / method of the response
+					// (`tok.bearerToken()`): the response is what this call passes for it
+					if tp, isP := tok.(*ssa.Parameter); isP && tp.Parent() != f {
+						if call, isCall := facts.Resolve(pr.tokenV).(*ssa.Call); isCall && call.Call.StaticCallee() == tp.Parent() {
+							for i, q := range tp.Parent().Params {
+								if q == tp && i < len(call.Call.Args) {
+									tok = facts.Resolve(call.Call.Args[i])
+								}
+							}
+						}
+					}
 					if tok == nil {
 						okAll, whyAll = false, "the cached token string does not come from the token server's response"
 						continue
